@@ -256,7 +256,7 @@ func GenRuleSet(t *rapid.T, o RuleOpts) *Generated {
 
 func startsWithDigit(s string) bool { return s != "" && s[0] >= '0' && s[0] <= '9' }
 
-var noise = []string{"a", "b", "c", "ab", "é", "日", ".", "+", "(", ")", " ", "\n", "\r\n", "0", "1", "-", `"`, "x", "\xff", "A", "K", "k", "\u212a", "\u017f", "ß", "\t", "*/", "}", "\\", "\ufeff"}
+var noise = []string{"a", "b", "c", "ab", "é", "日", ".", "+", "(", ")", " ", "\n", "\r\n", "0", "1", "-", `"`, "x", "\xff", "A", "K", "k", "\u212a", "\u017f", "ß", "\t", "*/", "}", "\\", "\ufeff", "\U0001F600", "\uffff"}
 
 type flatRule struct {
 	spec RuleSpec
@@ -386,6 +386,13 @@ func GenBackrefFamily(t *rapid.T) (*RuleSet, func(t *rapid.T) string) {
 		{Name: "Body", Rules: []RuleSpec{{Name: "Close", Pattern: closer, Action: "pop"}, {Name: "Nested", Pattern: open, Action: "push", Target: "Body"}, {Name: "Char", Pattern: `(?s:.)`}}},
 	}}
 	parts := []string{"a", "ab", "b", "bc", "c", "abc", "x", "xy", "y", "yz", "z"}
+	if rapid.IntRange(0, 2).Draw(t, "brmeta") == 0 {
+		// group texts full of regexp syntax (a back-reference matches them literally), incl. the \Q..\E quoting markers
+		open = `\[([^|\]]+)\|([^|\]]*)\]`
+		rs.States[0].Rules[0].Pattern = open
+		rs.States[1].Rules[1].Pattern = open
+		parts = []string{`\E`, `a\E`, `\Q`, `.`, `\E.\Q`, "a", "+", "(", `\`, "a*", `\d`}
+	}
 	input := func(t *rapid.T) string {
 		var sb strings.Builder
 		n := rapid.IntRange(1, 4).Draw(t, "brn")
